@@ -226,11 +226,7 @@ func (resp *Response) Write(w io.Writer) error {
 	ws.WriteString("\r\n")
 
 	// 写 Header
-	if len(resp.Body) > 0 {
-		resp.Header.SetInt(FieldContentLength, len(resp.Body))
-	} else {
-		delete(resp.Header, FieldContentLength)
-	}
+	resp.Header.setContentLength(len(resp.Body))
 	if err := resp.Header.Write(w); err != nil {
 		return err
 	}
